@@ -39,6 +39,22 @@ DESC = {
                 "phases, a PLoad with a partial phase table on a LIVE supply, an analysis over the omitted phase, then phases()/save() compared"),
  "C18-agent1": ("C18", "batt_life solves BEFORE writing the present battery state into the Source (current lags one step)",
                 "a battery whose voltage/impedance changes between steps or whose probed state differs from the declared Source"),
+ "C01-agent2": ("C01", "_child_curr: `break` instead of skipping a multi-input child that is fed from another input",
+                "a lower-priority (non-selected) PMux input that has other children added BEFORE the mux (successor order is reverse insertion order)"),
+ "C02-agent2": ("C02", "LinReg._solv_pwr_loss looks the ig table up at the OUTPUT voltage |v| instead of |vi|",
+                "an active LinReg with a 2-D ig table whose values differ between input and output voltage"),
+ "C03-agent2": ("C03", "_solve compares only the first len(topo_nodes) slots of the iterate vectors",
+                "a system with a hole in the node numbering (a deletion that is not the last added node): the highest-indexed components drop out of the convergence test"),
+ "C05-agent2": ("C05", "_find_domain walks the ancestors of the FIRST declared input instead of the connected one",
+                "a connected input that is not the first, not a bare source, and whose source differs from input 0's source"),
+ "C07-agent2": ("C07", "_find_domain uses the direct parents instead of all ancestors of the selected input",
+                "the conducting mux input two or more levels below its source, and a different source emitted just before the mux"),
+ "C09-agent2": ("C09", "vd computed as |vi - vo| instead of |vi| - |vo|",
+                "a component whose limits include vd with input and output of opposite sign (rectifier on a negative rail, LinReg with opposite-sign vo) and a vd limit in between"),
+ "C12-agent2": ("C12", "from_file no longer passes iq to Rectifier",
+                "a MOSFET-mode Rectifier with iq != 0 (solve differs only when its output current is exactly 0)"),
+ "C16-agent2": ("C16", "change_comp keeps the old phase configuration when the name is unchanged (setdefault instead of assignment)",
+                "set_sys_phases + set_comp_phases(X) + change_comp(X -> same name) + a phase-aware report"),
 }
 
 res = {}
